@@ -29,11 +29,33 @@ Lemma sview_writes req : sview (map GWrite req) = map SWrite req.
 Proof. induction req as [|b r IH]; [reflexivity|]. cbn [map]. change (sview (GWrite b :: map GWrite r)) with (SWrite b :: sview (map GWrite r)). now rewrite IH. Qed.
 
 (* ---------- GeminiClient.__init__ ---------- *)
-Lemma init_tie : forall t v c d,
-  gen_init t v c d = {| cfg_tofu_db := if t then Some tt else None;
-                        cfg_ssl_context := match c with Some i => CtxGiven i | None => CtxCreated v v end;
-                        cfg_decode_bodies := d |}.
-Proof. intros t v [i|] d; destruct t, v; reflexivity. Qed.
+Lemma init_tie : forall to mr c v t d,
+  gen_init to mr c v t d = {| cfg_timeout := to; cfg_max_redirects := mr; cfg_verify_ssl := v; cfg_trust_on_first_use := t;
+                              cfg_tofu_db := if t then Some tt else None;
+                              cfg_ssl_context := match c with Some i => CtxGiven i | None => CtxCreated v v end;
+                              cfg_decode_bodies := d |}.
+Proof. intros to mr [i|] v t d; destruct t, v; reflexivity. Qed.
+
+Lemma init_defaults :
+  gen_init_default_timeout = QArith_base.Qmake 30 1 /\ gen_init_default_max_redirects = gen_MAX_REDIRECTS /\ gen_MAX_REDIRECTS = 5 /\
+  gen_init_default_ssl_context = None /\ gen_init_default_verify_ssl = false /\ gen_init_default_trust_on_first_use = true /\
+  gen_init_default_decode_bodies = true.
+Proof. repeat split; reflexivity. Qed.
+
+(* ---------- GeminiClient.get ---------- *)
+Lemma get_tie {A : Type} : forall vu pu (gwr : str -> nat -> option (list str) -> res A) gs to mr c v t d url follow,
+  gen_get vu pu gwr gs (gen_init to mr c v t d) url follow
+  = match vu url with
+    | Ok _ => match pu url with
+              | Ok pr => match vu (Url.p_norm pr) with
+                         | Ok _ => if follow then gwr url mr None else gs url
+                         | Err k m => Err k m | OutOfModel => OutOfModel
+                         end
+              | Err k m => Err k m | OutOfModel => OutOfModel
+              end
+    | Err k m => Err k m | OutOfModel => OutOfModel
+    end.
+Proof. intros. rewrite init_tie. destruct follow; reflexivity. Qed.
 
 Arguments catches : simpl never.
 
@@ -97,11 +119,11 @@ Definition code_upload rp pu w :=
   gen_upload rp pu (fun s h p c => gen_verify s h p c now) gen_get_host_info (fun s h p c => gen_trust s h p c now)
     m_new_titan (m_step request cap dw CConnected) (m_step request cap dw CSend) w.
 
-Lemma flow pu np dbp url pr t v ctx db s c w :
+Lemma flow pu np dbp url pr t v ctx db to mr s c w :
   (forall u soc, np u db soc = {| mp_soc := soc; mp_db := dbp; mp_st := cinit |}) ->
   pu url = Ok pr ->
-  code_get_single pu np w (gen_init t v ctx db) s url ConnOk c
-  = expected request t dbp (cfg_ssl_context (gen_init t v ctx db)) (Url.p_host pr) (Url.p_port pr) s c now w.
+  code_get_single pu np w (gen_init to mr ctx v t db) s url ConnOk c
+  = expected request t dbp (cfg_ssl_context (gen_init to mr ctx v t db)) (Url.p_host pr) (Url.p_port pr) s c now w.
 Proof.
   intros Hnp Hp. unfold code_get_single, gen_get_single. rewrite Hp.
   set (h := Url.p_host pr). set (p := Url.p_port pr).
@@ -166,11 +188,11 @@ Qed.
 End Flow.
 
 (* ---------- the ties to Model.Session.session_call ---------- *)
-Lemma get_single_tie : forall request cap dw now pu url pr t v ctx db s c chunks exc,
+Lemma get_single_tie : forall request cap dw now pu url pr t v ctx db to mr s c chunks exc,
   pu url = Ok pr ->
   model_view (gen_get_single pu (fun s h p c => gen_verify s h p c now) gen_get_host_info (fun s h p c => gen_trust s h p c now)
                 m_new (m_step request cap dw CConnected) (m_step request cap dw CSend) (m_wait cap dw chunks exc)
-                (gen_init t v ctx db) s url ConnOk c)
+                (gen_init to mr ctx v t db) s url ConnOk c)
   = Some (session_call request db cap dw t s (Url.p_host pr) (Url.p_port pr) (presented_of c) now chunks exc).
 Proof.
   intros. fold (code_get_single request cap dw now pu m_new (m_wait cap dw chunks exc)).
@@ -208,17 +230,17 @@ Proof.
   (destruct (prefixb (lit "gemini://") url); [discriminate|destruct (prefixb (lit "titan://") url); [discriminate|reflexivity]]).
 Qed.
 
-Lemma upload_tie : forall request cap dw now rp pu url content mime token cb base pr t v ctx db s c chunks exc,
+Lemma upload_tie : forall request cap dw now rp pu url content mime token cb base pr t v ctx db to mr s c chunks exc,
   content_bytes content = Some cb -> titan_base url = Some base -> pu (rp base (lit "titan://") (lit "gemini://")) = Ok pr ->
   model_view (gen_upload rp pu (fun s h p c => gen_verify s h p c now) gen_get_host_info (fun s h p c => gen_trust s h p c now)
                 m_new_titan (m_step request cap dw CConnected) (m_step request cap dw CSend) (m_wait cap dw chunks exc)
-                (gen_init t v ctx db) s url content mime token ConnOk c)
+                (gen_init to mr ctx v t db) s url content mime token ConnOk c)
   = Some (session_call request true cap dw t s (Url.p_host pr) (Url.p_port pr) (presented_of c) now chunks exc).
 Proof.
-  intros request cap dw now rp pu url content mime token cb base pr t v ctx db s c chunks exc Hc Hb Hp.
+  intros request cap dw now rp pu url content mime token cb base pr t v ctx db to mr s c chunks exc Hc Hb Hp.
   rewrite (upload_reduces _ _ _ _ _ _ _ _ _ _ _ _ _ _ _ _ _ cb base Hc Hb).
   match goal with |- model_view (gen_get_single ?pu' _ _ _ ?np _ _ ?w _ _ _ _ _) = _ =>
-    change (model_view (code_get_single request cap dw now pu' np w (gen_init t v ctx db) s url ConnOk c) = 
+    change (model_view (code_get_single request cap dw now pu' np w (gen_init to mr ctx v t db) s url ConnOk c) = 
             Some (session_call request true cap dw t s (Url.p_host pr) (Url.p_port pr) (presented_of c) now chunks exc));
     rewrite (flow request cap dw now pu' np true url pr); [apply tie_of_flow|reflexivity|exact Hp] end.
 Qed.
@@ -379,27 +401,27 @@ Proof.
   - repeat split; reflexivity.
 Qed.
 
-Lemma c11_core request cap dw now pu np dbp url v ctx db s c conn w :
+Lemma c11_core request cap dw now pu np dbp url v ctx db to mr s c conn w :
   (forall u soc, np u db soc = {| mp_soc := soc; mp_db := dbp; mp_st := cinit |}) ->
-  let evs := snd (code_get_single request cap dw now pu np w (gen_init true v ctx db) s url conn c) in
+  let evs := snd (code_get_single request cap dw now pu np w (gen_init to mr ctx v true db) s url conn c) in
   soc_off evs = true /\ wr_guard false evs = true /\ Spec.C11.ok (sview evs) = true /\
   (forall pr, pu url = Ok pr -> snd (tofu_check s (Url.p_host pr) (Url.p_port pr) (presented_of c) now) <> SAccepted -> no_write evs = true).
 Proof.
   intros Hnp evs. subst evs.
   destruct (pu url) as [pr|k m|] eqn:Hp.
   - destruct conn as [|cls].
-    + rewrite (flow request cap dw now pu np dbp url pr true v ctx db s c w Hnp Hp).
-      destruct (c11_of_flow request dbp (cfg_ssl_context (gen_init true v ctx db)) (Url.p_host pr) (Url.p_port pr) s c now w) as (A & B & C & D).
+    + rewrite (flow request cap dw now pu np dbp url pr true v ctx db to mr s c w Hnp Hp).
+      destruct (c11_of_flow request dbp (cfg_ssl_context (gen_init to mr ctx v true db)) (Url.p_host pr) (Url.p_port pr) s c now w) as (A & B & C & D).
       repeat split; try assumption. intros pr' E. injection E as <-. exact D.
     + unfold code_get_single. rewrite (get_single_connect_failure _ _ _ _ _ _ _ _ _ _ _ pr cls c Hp). cbv zeta.
       destruct (catches gen_exc_bases (XLib cls) TE); [|destruct (catches gen_exc_bases (XLib cls) OSE)]; repeat split; reflexivity.
   - unfold code_get_single.
     destruct (get_single_bad_url pu (fun s h p c => gen_verify s h p c now) gen_get_host_info (fun s h p c => gen_trust s h p c now) np
-                (m_step request cap dw CConnected) (m_step request cap dw CSend) w (gen_init true v ctx db) s url conn c) as [k' ->];
+                (m_step request cap dw CConnected) (m_step request cap dw CSend) w (gen_init to mr ctx v true db) s url conn c) as [k' ->];
       [intros pr; rewrite Hp; discriminate|]. repeat split; reflexivity.
   - unfold code_get_single.
     destruct (get_single_bad_url pu (fun s h p c => gen_verify s h p c now) gen_get_host_info (fun s h p c => gen_trust s h p c now) np
-                (m_step request cap dw CConnected) (m_step request cap dw CSend) w (gen_init true v ctx db) s url conn c) as [k' ->];
+                (m_step request cap dw CConnected) (m_step request cap dw CSend) w (gen_init to mr ctx v true db) s url conn c) as [k' ->];
       [intros pr; rewrite Hp; discriminate|]. repeat split; reflexivity.
 Qed.
 
@@ -415,9 +437,9 @@ Qed.
    call that returned is_valid = True; the trace satisfies the monitor of C11; and when the pin check does not accept (changed
    certificate, unreadable certificate) nothing is written at all - for every URL parser, connection outcome, certificate, store
    and behaviour of the peer *)
-Lemma get_single_c11 : forall request cap dw now pu url v ctx db s c conn w,
+Lemma get_single_c11 : forall request cap dw now pu url v ctx db to mr s c conn w,
   let evs := snd (gen_get_single pu (fun s h p c => gen_verify s h p c now) gen_get_host_info (fun s h p c => gen_trust s h p c now)
-                    m_new (m_step request cap dw CConnected) (m_step request cap dw CSend) w (gen_init true v ctx db) s url conn c) in
+                    m_new (m_step request cap dw CConnected) (m_step request cap dw CSend) w (gen_init to mr ctx v true db) s url conn c) in
   (forall soc, In (GProto soc) evs -> soc = false) /\
   (forall pre b post, evs = pre ++ GWrite b :: post -> exists m, In (GVerify (true, m)) pre) /\
   Spec.C11.ok (sview evs) = true /\
@@ -425,14 +447,14 @@ Lemma get_single_c11 : forall request cap dw now pu url v ctx db s c conn w,
    forall b, ~ In (GWrite b) evs).
 Proof.
   intros. subst evs.
-  destruct (c11_core request cap dw now pu m_new db url v ctx db s c conn w (fun _ _ => eq_refl)) as (A & B & C & D).
+  destruct (c11_core request cap dw now pu m_new db url v ctx db to mr s c conn w (fun _ _ => eq_refl)) as (A & B & C & D).
   destruct (c11_logical _ A B) as [E F]. repeat split; try assumption.
   intros pr Hp Hn. apply no_write_sound. exact (D pr Hp Hn).
 Qed.
 
-Lemma upload_c11 : forall request cap dw now rp pu url content mime token v ctx db s c conn w,
+Lemma upload_c11 : forall request cap dw now rp pu url content mime token v ctx db to mr s c conn w,
   let evs := snd (gen_upload rp pu (fun s h p c => gen_verify s h p c now) gen_get_host_info (fun s h p c => gen_trust s h p c now)
-                    m_new_titan (m_step request cap dw CConnected) (m_step request cap dw CSend) w (gen_init true v ctx db) s url content mime token conn c) in
+                    m_new_titan (m_step request cap dw CConnected) (m_step request cap dw CSend) w (gen_init to mr ctx v true db) s url content mime token conn c) in
   (forall soc, In (GProto soc) evs -> soc = false) /\
   (forall pre b post, evs = pre ++ GWrite b :: post -> exists m, In (GVerify (true, m)) pre) /\
   Spec.C11.ok (sview evs) = true /\
@@ -450,7 +472,7 @@ Proof.
   - destruct (titan_base url) as [base|] eqn:Hb.
     + rewrite (upload_reduces _ _ _ _ _ _ _ _ _ _ _ _ _ _ _ _ _ cb base Hc Hb).
       match goal with |- context [gen_get_single ?pu' _ _ _ ?np' _ _ _ _ _ _ _ _] =>
-        destruct (c11_core request cap dw now pu' np' true url v ctx db s c conn w (fun _ _ => eq_refl)) as (A & B & C & D) end.
+        destruct (c11_core request cap dw now pu' np' true url v ctx db to mr s c conn w (fun _ _ => eq_refl)) as (A & B & C & D) end.
       unfold code_get_single in *. destruct (c11_logical _ A B) as [E F]. repeat split; try assumption.
       intros base' pr Hb' Hp Hn. injection Hb' as <-. apply no_write_sound. exact (D pr Hp Hn).
     + rewrite (upload_bad_scheme _ _ _ _ _ _ _ _ _ _ _ _ _ _ _ _ _ cb Hc Hb). cbn [snd].
@@ -483,10 +505,10 @@ Proof.
     fold (sview (map GWrite request ++ snd (wait_out wo))). rewrite sview_app, sview_writes, sview_wait_out, app_nil_r. reflexivity.
 Qed.
 
-Lemma get_single_wait : forall request cap dw now pu url pr t v ctx db s c wo chunks exc,
+Lemma get_single_wait : forall request cap dw now pu url pr t v ctx db to mr s c wo chunks exc,
   pu url = Ok pr ->
   let r := gen_get_single pu (fun s h p c => gen_verify s h p c now) gen_get_host_info (fun s h p c => gen_trust s h p c now)
-             m_new (m_step request cap dw CConnected) (m_step request cap dw CSend) (fun _ => wo) (gen_init t v ctx db) s url ConnOk c in
+             m_new (m_step request cap dw CConnected) (m_step request cap dw CSend) (fun _ => wo) (gen_init to mr ctx v t db) s url ConnOk c in
   let m := session_call request db cap dw t s (Url.p_host pr) (Url.p_port pr) (presented_of c) now chunks exc in
   fst (fst r) = fst (fst m) /\ sview (snd r) = snd m /\
   (t = false \/ snd (tofu_check s (Url.p_host pr) (Url.p_port pr) (presented_of c) now) = SAccepted ->
@@ -497,19 +519,19 @@ Lemma get_single_wait : forall request cap dw now pu url pr t v ctx db s c wo ch
                  | WTimeout => Raised (XNewFrom (lit "TimeoutError") (XLib (lit "TimeoutError")))
                  end).
 Proof.
-  intros request cap dw now pu url pr t v ctx db s c wo chunks exc Hp.
+  intros request cap dw now pu url pr t v ctx db to mr s c wo chunks exc Hp.
   fold (code_get_single request cap dw now pu m_new (fun _ : mproto => wo)).
-  rewrite (flow request cap dw now pu m_new db url pr t v ctx db s c _ (fun _ _ => eq_refl) Hp).
-  destruct (wait_core request cap dw now t db (cfg_ssl_context (gen_init t v ctx db)) (Url.p_host pr) (Url.p_port pr) s c wo chunks exc) as (A & B & C).
+  rewrite (flow request cap dw now pu m_new db url pr t v ctx db to mr s c _ (fun _ _ => eq_refl) Hp).
+  destruct (wait_core request cap dw now t db (cfg_ssl_context (gen_init to mr ctx v t db)) (Url.p_host pr) (Url.p_port pr) s c wo chunks exc) as (A & B & C).
   repeat split; [exact A|exact B|]. intro H. rewrite (C H).
   destruct wo as [x|k|]; unfold wait_out; [reflexivity| |reflexivity].
   change (lit "TimeoutError") with TE. destruct (catches gen_exc_bases (XFuture k) TE); reflexivity.
 Qed.
 
-Lemma upload_wait : forall request cap dw now rp pu url content mime token cb base pr t v ctx db s c wo chunks exc,
+Lemma upload_wait : forall request cap dw now rp pu url content mime token cb base pr t v ctx db to mr s c wo chunks exc,
   content_bytes content = Some cb -> titan_base url = Some base -> pu (rp base (lit "titan://") (lit "gemini://")) = Ok pr ->
   let r := gen_upload rp pu (fun s h p c => gen_verify s h p c now) gen_get_host_info (fun s h p c => gen_trust s h p c now)
-             m_new_titan (m_step request cap dw CConnected) (m_step request cap dw CSend) (fun _ => wo) (gen_init t v ctx db) s url content mime token ConnOk c in
+             m_new_titan (m_step request cap dw CConnected) (m_step request cap dw CSend) (fun _ => wo) (gen_init to mr ctx v t db) s url content mime token ConnOk c in
   let m := session_call request true cap dw t s (Url.p_host pr) (Url.p_port pr) (presented_of c) now chunks exc in
   fst (fst r) = fst (fst m) /\ sview (snd r) = snd m /\
   (t = false \/ snd (tofu_check s (Url.p_host pr) (Url.p_port pr) (presented_of c) now) = SAccepted ->
@@ -520,12 +542,12 @@ Lemma upload_wait : forall request cap dw now rp pu url content mime token cb ba
                  | WTimeout => Raised (XNewFrom (lit "TimeoutError") (XLib (lit "TimeoutError")))
                  end).
 Proof.
-  intros request cap dw now rp pu url content mime token cb base pr t v ctx db s c wo chunks exc Hc Hb Hp.
+  intros request cap dw now rp pu url content mime token cb base pr t v ctx db to mr s c wo chunks exc Hc Hb Hp.
   rewrite (upload_reduces _ _ _ _ _ _ _ _ _ _ _ _ _ _ _ _ _ cb base Hc Hb).
   match goal with |- context [gen_get_single ?pu' _ _ _ ?np' _ _ _ _ _ _ _ _] =>
     fold (code_get_single request cap dw now pu' np' (fun _ : mproto => wo));
-    rewrite (flow request cap dw now pu' np' true url pr t v ctx db s c _ (fun _ _ => eq_refl) Hp) end.
-  destruct (wait_core request cap dw now t true (cfg_ssl_context (gen_init t v ctx db)) (Url.p_host pr) (Url.p_port pr) s c wo chunks exc) as (A & B & C).
+    rewrite (flow request cap dw now pu' np' true url pr t v ctx db to mr s c _ (fun _ _ => eq_refl) Hp) end.
+  destruct (wait_core request cap dw now t true (cfg_ssl_context (gen_init to mr ctx v t db)) (Url.p_host pr) (Url.p_port pr) s c wo chunks exc) as (A & B & C).
   repeat split; [exact A|exact B|]. intro H. rewrite (C H).
   destruct wo as [x|k|]; unfold wait_out; [reflexivity| |reflexivity].
   change (lit "TimeoutError") with TE. destruct (catches gen_exc_bases (XFuture k) TE); reflexivity.
